@@ -107,8 +107,8 @@ def cases(ctx):
                 if ctx.mine(idx):
                     yield {'kind': 'items', 'prog': _prog([[_simple_row(3, 0, 0), _simple_row(4, 4, 2, items)]], doubled)}
                 idx += 1
-    for _ in range(ctx.budget(4000, 300000)):
-        yield {'kind': 'random', 'prog': G.gen_popon(rng)}
+    for _ in range(ctx.budget(10000, 400000)):
+        yield {'kind': 'random', 'prog': G.gen_popon(rng, italic_bias=rng.choice([0.0, 0.0, 0.5, 0.9]))}
 
 
 def nontrivial(case):
